@@ -31,7 +31,7 @@ m = {
     "hooks": {
         "guard": "verif",
         "enable": "go build -race -tags verif (the ./check wrapper builds every check binary against /repo's working tree through the replace directive in /verif/go.mod)",
-        "baseline_off_cmd": "cd /repo && GOFLAGS=-mod=mod GOPROXY=off GOSUMDB=off GOTOOLCHAIN=local go test -vet=off -count=1 ./...",
+        "baseline_off_cmd": "cd /repo && GOFLAGS=-mod=mod GOPROXY=off GOSUMDB=off GOTOOLCHAIN=local go test -json -vet=off -count=1 -timeout 25m ./...",
         "source_commits": hook_commits,
         "add_only": True,
     },
